@@ -23,8 +23,16 @@ def schedules(c, with_display=True):
     with time_machine.travel(at(c["now"]), tick=False), warnings.catch_warnings():
         warnings.simplefilter("ignore")
         try:
-            return "|".join(show_schedule(s, with_display) for s in sorted(get_schedules(bytes.fromhex(c["msg"])), key=lambda s: int(s.schedule_id)))
+            first = "|".join(show_schedule(s, with_display) for s in sorted(get_schedules(bytes.fromhex(c["msg"])), key=lambda s: int(s.schedule_id)))
         except Exception: return "raised"
+        if int(c["now"]) % 2: return first
+        # what a listing returns belongs to the application: it edits the day sets it was given (the usual way to change a schedule), then lists again
+        try:
+            for sch in get_schedules(bytes.fromhex(c["msg"])):
+                if isinstance(sch.days, set): sch.days.symmetric_difference_update({DAYS[2], DAYS[5]})
+            again = "|".join(show_schedule(s, with_display) for s in sorted(get_schedules(bytes.fromhex(c["msg"])), key=lambda s: int(s.schedule_id)))
+        except Exception as e: again = "raised " + type(e).__name__
+        return first if again == first else "%s (listed again after the application edited the day sets of the first listing; first: %s)" % (again, first)
 
 
 def local_facts(t):
@@ -65,6 +73,15 @@ def next_run(c):
             try: shown = SwitcherSchedule(str(int(c["now"]) % 8), bool(c["days"]), {DAYS[i] for i in c["days"]}, c["start"], "23:59").display
             except Exception as e: shown = "raised " + type(e).__name__
             if shown != txt: txt = "%s (SwitcherSchedule.display; pretty_next_run itself says: %s)" % (shown, txt)
+            else:
+                # ... and of a schedule object derived from another one (an edited schedule): dataclasses.replace / rebuilt from asdict()
+                import dataclasses
+                try:
+                    other = SwitcherSchedule("0", True, {DAYS[(int(c["now"]) // 7) % 7]}, "00:00", "00:01")
+                    derived = dataclasses.replace(other, recurring=bool(c["days"]), days={DAYS[i] for i in c["days"]}, start_time=c["start"])
+                    shown = derived.display
+                except Exception as e: shown = "raised " + type(e).__name__
+                if shown != txt: txt = "%s (display of a schedule derived with dataclasses.replace; pretty_next_run itself says: %s)" % (shown, txt)
     return {"text": txt, "facts_now": local_facts(c["now"])}
 
 
